@@ -93,6 +93,8 @@ def correspondence(ctx):
         nxt = nxt_m[1] if isinstance(nxt_m, tuple) and nxt_m[0] == 'Some' else nxt_m
         if nxt is None:
             stats['singular'] += 1
+            if not last and all(np.all(np.isfinite(trace[k + 1][0][u])) and np.abs(trace[k + 1][0][u]).max() < 1e6 for u in U):
+                bad.append('the executable model finds H_U exactly singular where the implementation computed a finite next iterate')
         elif not last:
             for u, pm in zip(U, nxt):
                 pmf = np.array([float(F(x)) for x in pm])
